@@ -1,8 +1,241 @@
-//! C11 runner (stub). Replace the body; keep the signature `pub fn run(args: &[String])`.
-#[allow(unused_imports)]
-use crate::common::{catch, each_line, opt_i64};
+//! C11 runner: totality of the front end and well-formedness of its diagnostics.
+//! Input lines: `<hex of UTF-8 source>` (mode `robust`, default) — each case is run on a fresh thread with a
+//! large stack under a wall-clock limit through
+//!   lexer::lex -> parser::parse -> typechecker::check -> format_source -> IrCodegen::try_generate
+//! and every diagnostic produced is checked (span inside the file, on char boundaries, start <= end) and
+//! rendered with diagnostics::format_error and lsp::diagnostics::compile_error_to_diagnostic.
+//! Output: `R lex=.. parse=.. check=.. fmt=.. gen=.. diags=N | <violations separated by " ;; ">`.
+//! A hang prints `HANG` and exits with status 3 (the driver restarts after the case); a stack overflow or
+//! abort kills the process (the driver sees the missing line).
+//! Mode `lex` (args[0] == "lex"): token classes and spans like `vharness run c10` mode lex.
+use crate::c10::{lex_line, unhex};
+use crate::common::catch;
+use incan::frontend::diagnostics::{format_error, CompileError};
+use incan::lsp::diagnostics::compile_error_to_diagnostic;
+use incan_syntax::lexer::{self, TokenKind};
+use incan_syntax::parser;
+use std::io::{self, BufRead, Write};
+use std::sync::mpsc;
+use std::time::Duration;
 
-pub fn run(_args: &[String]) {
-    eprintln!("c11: runner not implemented");
-    std::process::exit(2);
+const STACK_BYTES: usize = 1 << 30; // 1 GiB of address space; pages are touched only when used
+const TIMEOUT_SECS: u64 = 20; // normal cases take < 10 ms
+
+fn check_diag(stage: &str, src: &str, e: &CompileError, viol: &mut Vec<String>) {
+    let (a, b) = (e.span.start, e.span.end);
+    let len = src.len();
+    if a > b {
+        viol.push(format!("span-reversed {} {}..{} len={} msg={:?}", stage, a, b, len, e.message));
+    }
+    if a > len || b > len {
+        viol.push(format!("span-outside {} {}..{} len={} msg={:?}", stage, a, b, len, e.message));
+    } else if !src.is_char_boundary(a) || !src.is_char_boundary(b) {
+        viol.push(format!("span-off-boundary {} {}..{} len={} msg={:?}", stage, a, b, len, e.message));
+    }
+    match catch(|| format_error("input.incn", src, e)) {
+        Ok(s) => {
+            if s.is_empty() {
+                viol.push(format!("render-empty terminal {} {}..{}", stage, a, b));
+            }
+        }
+        Err(p) => viol.push(format!("render-panic terminal {} {}..{} len={} panic={:?}", stage, a, b, len, p)),
+    }
+    let uri = tower_lsp::lsp_types::Url::parse("file:///input.incn").expect("static url");
+    match catch(|| compile_error_to_diagnostic(e, src, &uri)) {
+        Ok(d) => {
+            let (s, t) = (d.range.start, d.range.end);
+            if (s.line, s.character) > (t.line, t.character) {
+                viol.push(format!("render-range-reversed editor {} {}..{}", stage, a, b));
+            }
+        }
+        Err(p) => viol.push(format!("render-panic editor {} {}..{} len={} panic={:?}", stage, a, b, len, p)),
+    }
+}
+
+fn pipeline(src: &str) -> String {
+    let mut viol: Vec<String> = Vec::new();
+    let mut ndiag = 0usize;
+    let mut st = |name: &str, v: String, acc: &mut Vec<String>| acc.push(format!("{}={}", name, v));
+    let mut stages: Vec<String> = Vec::new();
+
+    // lex
+    let toks = match catch(|| lexer::lex(src)) {
+        Err(p) => {
+            viol.push(format!("panic lex {:?}", p));
+            st("lex", "panic".into(), &mut stages);
+            None
+        }
+        Ok(Ok(t)) => {
+            if !matches!(t.last().map(|x| &x.kind), Some(TokenKind::Eof)) {
+                viol.push("shape lex Ok-without-final-Eof".to_string());
+            }
+            for tk in &t {
+                let (a, b) = (tk.span.start, tk.span.end);
+                if a > b || b > src.len() || !src.is_char_boundary(a) || !src.is_char_boundary(b) {
+                    viol.push(format!("token-span lex {}..{} len={}", a, b, src.len()));
+                }
+            }
+            st("lex", "ok".into(), &mut stages);
+            Some(t)
+        }
+        Ok(Err(es)) => {
+            if es.is_empty() {
+                viol.push("empty-diagnostics lex".to_string());
+            }
+            ndiag += es.len();
+            for e in &es {
+                check_diag("lex", src, e, &mut viol);
+            }
+            st("lex", format!("err:{}", es.len()), &mut stages);
+            None
+        }
+    };
+    // parse
+    let prog = match &toks {
+        None => {
+            st("parse", "-".into(), &mut stages);
+            None
+        }
+        Some(t) => match catch(|| parser::parse(t)) {
+            Err(p) => {
+                viol.push(format!("panic parse {:?}", p));
+                st("parse", "panic".into(), &mut stages);
+                None
+            }
+            Ok(Ok(p)) => {
+                st("parse", "ok".into(), &mut stages);
+                Some(p)
+            }
+            Ok(Err(es)) => {
+                if es.is_empty() {
+                    viol.push("empty-diagnostics parse".to_string());
+                }
+                ndiag += es.len();
+                for e in &es {
+                    check_diag("parse", src, e, &mut viol);
+                }
+                st("parse", format!("err:{}", es.len()), &mut stages);
+                None
+            }
+        },
+    };
+    // type check
+    match &prog {
+        None => st("check", "-".into(), &mut stages),
+        Some(p) => match catch(|| incan::frontend::typechecker::check(p)) {
+            Err(pn) => {
+                viol.push(format!("panic check {:?}", pn));
+                st("check", "panic".into(), &mut stages);
+            }
+            Ok(Ok(())) => st("check", "ok".into(), &mut stages),
+            Ok(Err(es)) => {
+                if es.is_empty() {
+                    viol.push("empty-diagnostics check".to_string());
+                }
+                ndiag += es.len();
+                for e in &es {
+                    check_diag("check", src, e, &mut viol);
+                }
+                st("check", format!("err:{}", es.len()), &mut stages);
+            }
+        },
+    }
+    // formatter (lexes and parses again itself)
+    match catch(|| incan::format_source(src)) {
+        Err(pn) => {
+            viol.push(format!("panic fmt {:?}", pn));
+            st("fmt", "panic".into(), &mut stages);
+        }
+        Ok(Ok(_)) => {
+            if prog.is_none() {
+                viol.push("shape fmt Ok-for-rejected-source".to_string());
+            }
+            st("fmt", "ok".into(), &mut stages);
+        }
+        Ok(Err(e)) => {
+            let text = e.to_string();
+            if text.trim().is_empty() {
+                viol.push("empty-diagnostics fmt".to_string());
+            }
+            if prog.is_some() {
+                viol.push("shape fmt Err-for-accepted-source".to_string());
+            }
+            st("fmt", "err".into(), &mut stages);
+        }
+    }
+    // --emit-rust path (commands::emit_rust: IrCodegen::new().try_generate(ast); it type-checks itself)
+    match &prog {
+        None => st("gen", "-".into(), &mut stages),
+        Some(p) => match catch(|| incan::IrCodegen::new().try_generate(p)) {
+            Err(pn) => {
+                viol.push(format!("panic gen {:?}", pn));
+                st("gen", "panic".into(), &mut stages);
+            }
+            Ok(Ok(_)) => st("gen", "ok".into(), &mut stages),
+            Ok(Err(e)) => {
+                let text = e.to_string();
+                if text.trim().is_empty() {
+                    viol.push("empty-diagnostics gen".to_string());
+                }
+                if let incan::backend::ir::codegen::GenerationError::TypeCheck(es) = &e {
+                    if es.is_empty() {
+                        viol.push("empty-diagnostics gen-typecheck".to_string());
+                    }
+                    for d in es {
+                        check_diag("gen", src, d, &mut viol);
+                    }
+                }
+                st("gen", "err".into(), &mut stages);
+            }
+        },
+    }
+    format!("R {} diags={} | {}", stages.join(" "), ndiag, viol.join(" ;; "))
+}
+
+pub fn run(args: &[String]) {
+    let mode = args.first().map(|s| s.as_str()).unwrap_or("robust");
+    let stdin = io::stdin();
+    let stdout = io::stdout();
+    for line in stdin.lock().lines() {
+        let Ok(line) = line else { break };
+        let line = line.trim_end().to_string();
+        if line.is_empty() {
+            continue;
+        }
+        // an empty source is sent as "-"
+        let Some(src) = (if line == "-" { Some(String::new()) } else { unhex(&line) }) else {
+            let mut o = stdout.lock();
+            let _ = writeln!(o, "BADINPUT");
+            let _ = o.flush();
+            continue;
+        };
+        if mode == "lex" {
+            let mut o = stdout.lock();
+            let _ = writeln!(o, "{}", lex_line(&src).replace('\n', "\\n"));
+            let _ = o.flush();
+            continue;
+        }
+        let (tx, rx) = mpsc::channel::<String>();
+        let handle = std::thread::Builder::new()
+            .stack_size(STACK_BYTES)
+            .spawn(move || {
+                let r = catch(|| pipeline(&src)).unwrap_or_else(|p| format!("R harness-panic | panic harness {:?}", p));
+                let _ = tx.send(r);
+            })
+            .expect("spawn");
+        match rx.recv_timeout(Duration::from_secs(TIMEOUT_SECS)) {
+            Ok(r) => {
+                let _ = handle.join();
+                let mut o = stdout.lock();
+                let _ = writeln!(o, "{}", r.replace('\n', "\\n"));
+                let _ = o.flush();
+            }
+            Err(_) => {
+                let mut o = stdout.lock();
+                let _ = writeln!(o, "HANG");
+                let _ = o.flush();
+                std::process::exit(3);
+            }
+        }
+    }
 }
